@@ -120,6 +120,9 @@ def run(tier, replay=None):
         if c[3] == "accept" and c[4].get("aggmutual") and r.rc == 1 and errs and all("Mutually dependent aggregate" in l for l in errs) \
                 and known_listed(res, "C13", "mutual-aggregate-cyclic-dependency-fatal"):
             continue            # signature (c): the conservative diagnostic for aggregates that only filter each other
+        if c[3] == "accept" and r.rc == 1 and errs and all(l.startswith("Error: Ungrounded variable") for l in errs) \
+                and known_listed(res, "C13", "grounded-clause-rejected-aggregate-injected-variable"):
+            continue            # signature (d): a grounded clause whose aggregate uses an injected functor-defined variable twice
         judged.append(r)
     verdicts = dt.validate(judged, wd, "trace", res)
     text_of = {by_text[t][0]: t for t in texts}
